@@ -158,6 +158,13 @@ func (f SigFamily) Draw(r *Rng, spread int) MSig {
 	s.Locked = r.Chance(1, 4)
 	if r.Chance(1, 3) {
 		s.Created.Calls = append(s.Created.Calls, mkCreated(frameKinds[r.Intn(3)], r.Intn(2)*7))
+		if r.Chance(1, 3) {
+			// a whole creation stack, as in a race report: the same go statement reached through
+			// different callers
+			for k := 1 + r.Intn(2); k > 0; k-- {
+				s.Created.Calls = append(s.Created.Calls, mkCreated(frameKinds[r.Intn(4)], 0))
+			}
+		}
 	}
 	return s
 }
